@@ -38,6 +38,14 @@ POOL = [
     ["dict", 924, []], ["dict", 925, [[["int", 1], ["str", "a"]]]], ["dict", 926, [[["str", "a"], ["int", 1]]]],
     ["inst", "A", 1], ["int", 300], ["float", 0.0], ["str", "ab"],
     ["list", 930, [["tuple", 931, [["int", 1], ["bool", True]]], ["tuple", 932, [["int", 1], ["int", 1]]]]],
+    # deeper nesting
+    ["tuple", 940, [["tuple", 941, [["int", 1]]], ["str", "a"]]], ["tuple", 942, [["list", 943, [["int", 1]]]]],
+    ["list", 944, [["dict", 945, [[["str", "a"], ["int", 1]]]]]], ["dict", 946, [[["int", 1], ["list", 947, [["str", "a"]]]]]],
+    ["dict", 948, [[["str", "a"], ["tuple", 949, [["int", 1], ["str", "a"]]]]]], ["list", 950, [["set", 951, [["int", 1]]]]],
+    ["tuple", 952, [["inst", "B", 0], ["inst", "A", 0]]], ["list", 953, [["inst", "B", 0]]], ["list", 954, [["class", "bool"]]],
+    ["tuple", 955, [["bool", True], ["float", 1.5]]], ["frozenset", [["str", "a"]]], ["set", 956, [["tuple", 957, [["int", 1]]]]],
+    ["list", 958, [["ie", "x"]]], ["tuple", 959, [["e", "a"], ["none"]]], ["dict", 960, [[["bool", True], ["none"]]]],
+    ["list", 961, [["list", 962, [["list", 963, [["int", 1]]]]]]], ["tuple", 964, [["str", "a"], ["str", "b"], ["str", "c"]]],
 ]
 
 # enum classes as *types* are out of fragment (their generic bases through EnumMeta are not modelled); enum members stay
@@ -128,13 +136,98 @@ def narrow(s, rng):
     if k == "seq":
         if rng.random() < 0.1 and s[2]:
             return ["generic", "tuple", [narrow(s[2][0][1], rng)]]
-        return ["seq", s[1], [[f, narrow(x, rng)] for f, x in s[2]]]
+        ms = [[f, narrow(x, rng)] for f, x in s[2]]
+        r2 = rng.random()
+        if r2 < 0.08 and ms:
+            ms = ms[:-1]  # one member fewer (down to tuple[()])
+        elif r2 < 0.16:
+            ms = ms + [[False, gen_static(rng, 1)]]  # one member more
+        return ["seq", s[1], ms]
     if k == "annot":
         return narrow(s[1], rng) if rng.random() < 0.5 else ["annot", narrow(s[1], rng), s[2]]
     if k == "subclass":
         sub = ["typed", rng.choice([x for x in SUBS.get(s[1][1], [s[1][1]]) if x != "LiteralString"])] if s[1][0] == "typed" else s[1]
         return ["subclass", sub, False] if rng.random() < 0.6 else ["known", ["class", rng.choice(["int", "bool", "A", "B", "str"])]]
     return s
+
+
+def _hashable_spec(s):
+    try:
+        hash(G.build_obj(s, {}))
+        return True
+    except TypeError:
+        return False
+
+
+def gen_member(rng, s, depth=3):
+    """an object spec that is, by construction, (very likely) a member of the static value s;
+    None when no member is known (Never, uninhabited shapes).  Used to derive the soundness
+    pool from the generated types, so every accepted pair is tested against objects of B."""
+    k = s[0]
+    lab = 7000 + rng.randrange(1000)
+    if k == "typed":
+        c = s[1]
+        if c in LITS_OF:
+            return rng.choice(LITS_OF[c])
+        return {"list": ["list", lab, []], "tuple": ["tuple", lab, [["int", 1]]], "dict": ["dict", lab, []], "set": ["set", lab, []],
+                "frozenset": ["frozenset", []]}.get(c)
+    if k == "literalstring":
+        return ["str", "a"]
+    if k == "known":
+        return s[1]
+    if k == "newtype":
+        return ["int", 1]
+    if k == "any":
+        return rng.choice([["int", 1], ["str", "a"], ["none"]])
+    if k in ("unite", "union"):
+        alts = [x for x in s[1]]
+        rng.shuffle(alts)
+        for x in alts:
+            m = gen_member(rng, x, depth)
+            if m is not None:
+                return m
+        return None
+    if k == "annot":
+        return gen_member(rng, s[1], depth)
+    if k == "subclass":
+        inner = s[1]
+        if inner[0] == "typed" and inner[1] in ("int", "float", "bool", "str", "A", "B", "C", "object", "complex"):
+            return ["class", rng.choice({"int": ["int", "bool"], "float": ["float"], "A": ["A", "B"], "object": ["int", "A", "str"],
+                                         "complex": ["complex"]}.get(inner[1], [inner[1]]))]
+        return None
+    if depth <= 0:
+        return None
+    if k == "generic":
+        c, args = s[1], s[2]
+        n = rng.randrange(0, 3)
+        if c in ("dict", "Mapping"):
+            kvs = []
+            for _ in range(n):
+                kk, vv = gen_member(rng, args[0], depth - 1), gen_member(rng, args[1], depth - 1)
+                if kk is None or vv is None or not _hashable_spec(kk):
+                    continue
+                kvs.append([kk, vv])
+            keys = G._distinct([kv[0] for kv in kvs])
+            return ["dict", lab, [kv for kv in kvs if kv[0] in keys][: len(keys)]] if len(keys) == len(kvs) else ["dict", lab, []]
+        els = [gen_member(rng, args[0], depth - 1) for _ in range(n)]
+        els = [e for e in els if e is not None]
+        kind = {"list": ["list"], "set": ["set"], "frozenset": ["frozenset"], "tuple": ["tuple"], "Sequence": ["list", "tuple"],
+                "Iterable": ["list", "set", "tuple"], "Collection": ["list", "tuple"]}[c]
+        kind = rng.choice(kind)
+        if kind in ("set", "frozenset"):
+            els = G._distinct([e for e in els if _hashable_spec(e)])
+            return ["frozenset", els] if kind == "frozenset" else ["set", lab, els]
+        return [kind, lab, els]
+    if k == "seq":
+        els = []
+        for many, x in s[2]:
+            for _ in range(rng.randrange(0, 3) if many else 1):
+                m = gen_member(rng, x, depth - 1)
+                if m is None:
+                    return None
+                els.append(m)
+        return ["tuple", lab, els]
+    return None
 
 
 def load_corpus():
@@ -159,12 +252,13 @@ def run(tier: str, replay: str | None = None):
         cases = [json.loads(Path(replay).read_text())["input"]]
     else:
         cases = list(load_corpus())
-        n = 700 if tier == "quick" else 7000
+        n = 6000 if tier == "quick" else 30000
         for _ in range(n):
             any_ok = rng.random() < 0.2
-            a = gen_static(rng, 3, any_ok)
+            dep = 4 if rng.random() < 0.25 else 3
+            a = gen_static(rng, dep, any_ok)
             r = rng.random()
-            b = narrow(a, rng) if r < 0.55 else (a if r < 0.62 else gen_static(rng, 3, any_ok))
+            b = narrow(a, rng) if r < 0.55 else (a if r < 0.62 else gen_static(rng, dep, any_ok))
             c = narrow(a, rng) if rng.random() < 0.5 else gen_static(rng, 2, any_ok)
             a, b, c = G.fix_labels([a, b, c])
             cases.append({"a": a, "b": b, "c": c})
@@ -202,8 +296,24 @@ def run(tier: str, replay: str | None = None):
         bc = V.unite_values(B, C)
         laws["union_right_iff_all"] = acc(A, bc) == (obs["ab"] and obs["ac"])
         laws["union_left_if_some"] = (not obs["ab"]) or acc(V.unite_values(A, C), B)
-        rows.append({"case": case, "obs": obs, "laws": laws, "anyfree": anyfree,
-                     "term": f"c04_run table {show(ta)} {show(tb)} {show(tc)} pool"})
+        # objects derived from B (and a few from A and C): members by construction
+        extra = case.get("extra_pool")
+        if extra is None:
+            erng = random.Random(__import__("zlib").crc32(json.dumps(case, sort_keys=True).encode()))
+            extra = []
+            for src, cnt in ((case["b"], 5), (case["a"], 2), (case["c"], 1)):
+                for _ in range(cnt):
+                    m = gen_member(erng, src)
+                    if m is not None:
+                        extra.append(m)
+            extra = G.fix_labels(extra)
+        ecx = Ctx()
+        try:
+            extra_terms = [show(enc_obj(G.build_obj(e, {}), ecx)) for e in extra]
+        except (OutOfFragment, TypeError):
+            extra, extra_terms = [], []
+        rows.append({"case": case, "obs": obs, "laws": laws, "anyfree": anyfree, "extra": extra,
+                     "term": f"c04_run table {show(ta)} {show(tb)} {show(tc)} (pool ++ [" + "; ".join(extra_terms) + "])"})
         hist["accept" if obs["ab"] else "reject"] += 1
         hist["kinds_a"][case["a"][0]] = hist["kinds_a"].get(case["a"][0], 0) + 1
         hist["kinds_b"][case["b"][0]] = hist["kinds_b"].get(case["b"][0], 0) + 1
@@ -212,17 +322,18 @@ def run(tier: str, replay: str | None = None):
     if model_ok:
         try:
             results = lib.coq_eval(HEADER + f"Definition pool : list obj := {pool_term}.\n", [r["term"] for r in rows], name="c04",
-                                   shard=100 if tier == "quick" else 300, jobs=6)
+                                   shard=300, jobs=6)
             for r, res in zip(rows, results):
-                ab, ab_x, ac, aa, aa_x, (ma, mb), (bare, varfix, hasany, unsafe, variadic, newtype) = res
+                ab, ab_x, ac, aa, aa_x, (ma, mb), (bare, varfix, hasany, unsafe, variadic, newtype, reflok) = res
                 r["model"] = {"ab": ab, "ab_x": ab_x, "ac": ac, "aa": aa, "aa_x": aa_x}
                 r["member_a"], r["member_b"] = ma, mb
-                r["clauses"] = {"bare_generic": bare, "variadic_into_fixed": varfix, "has_any": hasany, "literal_dedup": unsafe, "variadic_member": variadic, "newtype": newtype}
+                r["clauses"] = {"bare_generic": bare, "variadic_into_fixed": varfix, "has_any": hasany, "literal_dedup": unsafe, "variadic_member": variadic, "newtype": newtype, "refl_ok": reflok}
         except (RuntimeError, ValueError) as ex:
             rep.violation({"kind": "broken-correspondence", "correspondence": "Core.CanAssign evaluation", "detail": str(ex)[-1500:]}, no_failing_input=True)
 
     findings = {f["id"]: f for f in lib.load_known_findings(PROP)["findings"]}
     failing, corr, validated, distinct, n_sound_checked, lenient = [], [], 0, set(), 0, 0
+    n_b_members = n_b_without_member = n_refl_guard = 0
     for r in rows:
         bad = [k for k, v in r["laws"].items() if not v]
         witness = None
@@ -233,12 +344,18 @@ def run(tier: str, replay: str | None = None):
             else:
                 validated += 1
             distinct.add(json.dumps(r["case"], sort_keys=True))
+            n_refl_guard += bool(r["clauses"]["refl_ok"])
+            if r["clauses"]["refl_ok"] and not (r["obs"]["aa"] and r["obs"]["aa_x"]) and "refl" not in bad:
+                bad.append("refl")  # the theorem C04_reflexive predicts acceptance
             if r["obs"]["ab"] and not r["clauses"]["has_any"]:
                 n_sound_checked += 1
+                specs = POOL + r["extra"]
                 for i, (ia, ib) in enumerate(zip(r["member_a"], r["member_b"])):
                     if ib and not ia:
-                        witness = POOL[i]
+                        witness = specs[i]
                         break
+                n_b_members += sum(1 for x in r["member_b"] if x)
+                n_b_without_member += not any(r["member_b"])
                 if witness is not None:
                     if r["clauses"]["bare_generic"] or r["clauses"]["variadic_into_fixed"]:
                         lenient += 1  # the leniencies the property excludes
@@ -278,13 +395,15 @@ def run(tier: str, replay: str | None = None):
     rep.coverage.update(
         evaluations=len(rows) * 5,
         distinct_nontrivial=len(distinct),
-        rule="a case = (A, B, C) of static values up to depth 3 (classes, literals incl. containers, NewType, unions, Annotated, type[...], "
+        rule="a case = (A, B, C) of static values up to depth 3-4 (classes, literals incl. containers, NewType, unions, Annotated, type[...], "
         "generics over 9 classes, fixed tuples, rarely unpacked members, Any in 20%% of the cases); B is a narrowing of A in 55%% of the cases; "
         "5 verdicts per case (A<-B, A<-B exclude-Any, A<-C, A<-A both modes) are compared model vs implementation; 7 laws are evaluated on the "
-        "real code; soundness is checked for every accepted Any-free pair against a pool of %d objects" % len(POOL),
+        "real code; soundness is checked for every accepted Any-free pair against a fixed pool of %d objects plus up to 8 objects derived "
+        "structurally from B, A and C (members by construction)" % len(POOL),
         samples=[r["case"] for r in rows[:3]],
         traces_validated_against_impl=validated,
-        input_distribution={**hist, "soundness_pairs_checked": n_sound_checked, "lenient_pairs_excluded": lenient, "out_of_fragment": oof, "cases": len(cases)},
+        input_distribution={**hist, "soundness_pairs_checked": n_sound_checked, "values_in_reflexive_fragment_refl_ok": n_refl_guard, "objects_of_B_tested": n_b_members,
+                            "accepted_pairs_with_no_known_object_of_B": n_b_without_member, "lenient_pairs_excluded": lenient, "out_of_fragment": oof, "cases": len(cases)},
         correspondence_mismatches=len(corr),
         oracle_failures_unattributed=len(failing),
     )
